@@ -266,6 +266,7 @@ inductive Obj where
 inductive WErr where
   | weirdSpan      -- the panic of filewriter.go:255
   | sizeMismatch   -- populateParts, schema.go:755
+  | upload         -- the blob server refused a blob (uploadString's error)
 deriving DecidableEq, Repr
 
 mutual
@@ -318,6 +319,24 @@ def writeFile (c : Cfg) (input : List In) : Except WErr (List Part × List Obj) 
     | .ok (parts, ups) =>
       if sumPartsSize parts ≠ n then .error .sizeMismatch
       else .ok (parts, chunks.map Obj.chunk ++ ups ++ [.file parts])
+
+/-- `writeFileMapRolling` over a blob server that may refuse blobs: `fails i` says whether the `i`-th
+upload (in the start order of `writeFile`'s object list) fails.
+* chunk uploads run concurrently; `writeFileChunks` returns only after ALL of them have finished and
+  then reports the first error (filewriter.go:309-331 during the loop, :397-408 after the gate drain);
+* `uploadBytes` for the file blob waits (`future.Get`) for every bytes schema blob and returns their
+  error before the file blob is uploaded (:178-186); the file blob's own error is returned by `Get`. -/
+def writeFileF (fails : Nat → Bool) (c : Cfg) (input : List In) : Except WErr (List Part × List Obj) :=
+  match writeFileChunks c input with
+  | (n, spans, chunks) =>
+    if (List.range chunks.length).any fails then .error .upload
+    else match addBytesParts spans with
+      | .error e => .error e
+      | .ok (parts, ups) =>
+        if sumPartsSize parts ≠ n then .error .sizeMismatch
+        else if (List.range ups.length).any (fun j => fails (chunks.length + j)) then .error .upload
+        else if fails (chunks.length + ups.length) then .error .upload
+        else .ok (parts, chunks.map Obj.chunk ++ ups ++ [.file parts])
 
 /-! ## (c) static sets -/
 
